@@ -65,10 +65,15 @@ class DialogueChild(Scripted):
                     self.received.append(self.inputs.pop(0))
                     self.program.pop(0)
                 else:
+                    if timeout is None:
+                        raise RuntimeError('dialogue child waits for an answer for ever and the read has no timeout')
                     self.reads.append(('timeout',))
                     raise TIMEOUT('Timeout exceeded.')
             elif op[0] == 'pause':
+                # the child is silent for PAUSE virtual seconds: longer than any finite timeout used here except LONG
                 self.program.pop(0)
+                if timeout is None or timeout > PAUSE:
+                    continue
                 self.reads.append(('timeout',))
                 raise TIMEOUT('Timeout exceeded.')
 
@@ -90,9 +95,11 @@ class DialogueChild(Scripted):
 
 
 RESP_TEXT = {'str': 'y\n', 'cb_str': 'z\n'}
+PAUSE = 40          # virtual seconds of silence of a 'pause' step
+LONG = 50
 
 
-def run_case(mapping, program, chunksize, table, mode, tid, withexit=False):
+def run_case(mapping, program, chunksize, table, mode, tid, withexit=False, timeout=5):
     """table: list of (abstract pattern, resp kind); mode: 'list' | 'dict' | 'none'"""
     install()
     clock = VClock().install(expect_mod)
@@ -117,7 +124,8 @@ def run_case(mapping, program, chunksize, table, mode, tid, withexit=False):
             rec.emit(e='send', idx=idx, text=mapping.abstract(child._coerce_send_string(s)))
             return n
         child.send = send
-        rec.emit(e='run', resp=[r for p, r in table] if table else [], mode=mode)
+        rec.emit(e='run', resp=[r for p, r in table] if table else [], mode=mode,
+                 tmo_req='none' if timeout is None else 'pos')
         return child
     cblog = []
 
@@ -154,7 +162,7 @@ def run_case(mapping, program, chunksize, table, mode, tid, withexit=False):
     err = None
     try:
         kw = {'encoding': enc} if enc else {}
-        out = run_mod.run('dialogue', timeout=5, withexitstatus=withexit, events=events, **kw)
+        out = run_mod.run('dialogue', timeout=timeout, withexitstatus=withexit, events=events, **kw)
     except Exception as e:
         out, err = None, type(e).__name__
     finally:
@@ -171,7 +179,7 @@ def run_case(mapping, program, chunksize, table, mode, tid, withexit=False):
     rec.emit(e='runret', result=mapping.abstract(out) if out is not None else ['<' + str(err) + '>'], exit=exitc,
              order_ok=order_ok, received=[x.decode('latin-1') for x in child.received])
     return {'id': tid, 'ev': rec.events,
-            'meta': {'program': program, 'chunk': chunksize, 'table': table, 'mode': mode,
+            'meta': {'program': program, 'chunk': chunksize, 'table': table, 'mode': mode, 'timeout': timeout,
                      'unicode': mapping.unicode_mode, 'withexit': withexit, 'want_exit': child.exit_code}}
 
 
@@ -248,6 +256,17 @@ def run(ctx):
                     for mapping in (P.ASCII, P.UNI):
                         traces.append(run_case(mapping, program, chunk, table, mode, tid, withexit=bool(tid % 2)))
                         tid += 1
+    # the timeout argument: None (never times out: a pause is waited out), -1 (spawn's default), longer than the pause
+    for program in PROGRAMS:
+        waits = any(op[0] == 'read' for op in program)
+        for table in TABLES:
+            if not terminates(program, table) or waits:
+                continue
+            if not any(op[0] == 'exit' for op in program):
+                continue
+            for tmo in (None, -1, LONG):
+                traces.append(run_case(P.ASCII, program, 2, table, 'list' if table else 'none', tid, withexit=False, timeout=tmo))
+                tid += 1
     # random larger dialogues
     for i in range(300 if ctx.quick() else 6000):
         prog = []
@@ -336,7 +355,7 @@ def replay(ctx):
         print(d)
         return 0
     t = run_case(P.UNI if m['unicode'] else P.ASCII, [tuple(x) for x in m['program']], m['chunk'],
-                 [(p, r) for p, r in m['table']] if m['table'] else None, m['mode'], 'replay', m['withexit'])
+                 [(p, r) for p, r in m['table']] if m['table'] else None, m['mode'], 'replay', m['withexit'], m.get('timeout', 5))
     v, _ = tracecheck.validate([t], 'ExpectTrace', ctx.work, constants=TRACE_CONSTS, procs=1, tag='replay')
     for e in t['ev']:
         print('   ', json.dumps(e))
